@@ -45,7 +45,7 @@ func Specs() map[string]*PropSpec {
 			"quick":    "one block, fully symbolic: parent base fee in [0,2^128), gas figure any uint64, MaxGas nil / -1 / [0,2^62], elasticity and denominator any uint32 >= 1, min gas price any Dec in [0,10^42], height and enable height in [0,2^40]; every parameter set accepted by the real Params.Validate (elasticity any uint32) computes a base fee without panicking; monotonicity over two gas figures; EndBlock: gasWanted < 2^63, gasUsed <= limit <= 2^62, multiplier in [0,1]; the recording side: the ante GasWantedDecorator with the real fee-market keeper (any height, enable height, NoBaseFee, block gas limit, previous counter, tx gas) adds the declared gas exactly in the blocks CalculateBaseFee treats as EIP-1559 blocks; every ante route (the real constructors of the Ethereum, Cosmos and legacy EIP-712 chains) carries GasWantedDecorator",
 			"thorough": "same (the single-step query is already unbounded in the value dimension)",
 		},
-		Outside: []string{"block gas limit below the elasticity multiplier (target 0: the real code divides by zero once any gas is wanted)", "base fee >= 2^128", "block sequences longer than one step (monotone/bounds are single-step facts from an arbitrary parent base fee, below the minimum gas price included)", "gasWanted >= 2^63 (EndBlock returns early)"},
+		Outside: []string{"a positive block gas limit below the elasticity multiplier (target 0: the real code divides by zero once any gas is wanted, but such a block admits no transaction; MaxGas = 0 is inside the claim and read as no limit, finding C17-F3)", "base fee >= 2^128", "block sequences longer than one step (monotone/bounds are single-step facts from an arbitrary parent base fee, below the minimum gas price included)", "gasWanted >= 2^63 (EndBlock returns early)"},
 		Assumptions: []string{"Context.KVStore replaced by the harness multistore (gas metering wrapper skipped)", "codec modelled as typed blobs (Marshal/Unmarshal inverse pair)", "big.Int / math.Int / LegacyDec theory summaries"},
 		Stubs:       []string{"zzverif.MemStore (in-memory KVStore)", "zzverif blob codec"},
 	}
